@@ -1,34 +1,28 @@
-"""Property registry: which monitors, builds and budgets decide each property (DESIGN.md section 3)."""
+"""Property registry: which monitors, builds and budgets decide each property (DESIGN.md section 3).
+
+Each property lives in its own module vf/p_cNN.py defining ID and PROP (a dict):
+  level            MANIFEST category: exploration | fault_enumeration
+  level_text       what assurance the check gives (MANIFEST level_claimed.text)
+  level_note       trusted base / assumptions (MANIFEST level_note)
+  technique        few words naming the deciding method
+  rule             how cases are generated and what makes one non-trivial/distinct (evidence coverage.rule)
+  assumptions      list of strings (evidence)
+  floor            {"quick": n, "thorough": n}: fewer distinct non-trivial cases than this => inconclusive (exit 2)
+  must_count       {"quick": [counter names], ...}: counters that must be > 0, else inconclusive
+  exhaustive       bool or {"quick": bool, "thorough": bool}
+  jobs             list of {"mon": "mon_cNN", "cfg": <build cfg>, "cases": {"quick": n, "thorough": n},
+                            "args": [...extra argv...], "env": {...}, "seed_off": int, "shards": int|{tier:int},
+                            "cxxflags": [...], "prefix": [...command prefix e.g. valgrind...]}
+  post             optional callable(ctx_dict) run after all workers (cross-build joins)
+  crash_is_violation  default True
+"""
+import glob
+import importlib
+import os
 
 PROPS = {}
 NOT_BUILT = {}
 
-
-def _q(quick, thorough):
-    return {"quick": quick, "thorough": thorough}
-
-
-PROPS["C01"] = {
-    "level": "exploration",
-    "level_text": ("Exploration: every run executes Clipper64 on tens of thousands (quick) to millions (thorough) of generated "
-                   "general-position scenes under all 64 option combinations and two/three builds, and judges each solution at "
-                   "~50 margin-filtered points per scene against an exact winding-number oracle that shares no code with the engine. "
-                   "Exhaustive only over the lattice points of small scenes; the property quantifies over all inputs, so this is "
-                   "sampling evidence, not proof."),
-    "level_note": "trusted base: __int128 orientation/winding oracle, the general-position filter, g++; errors inside the tolerance band and inputs outside general position are not observable",
-    "technique": "runtime monitoring: exact winding-number reference oracle over generated executions (plain, HI_PRECISION, portable builds)",
-    "rule": ("scenes from gp_scene (7 shape classes x 9 magnitude classes 2^5..2^61, exact general-position filter), "
-             "cycled over 4 clip types x 4 fill rules x PreserveCollinear x ReverseSolution, builds plain+hp(+portable); "
-             "a case is non-trivial iff the inputs' edges properly cross at least once, at least 20 sample points cleared "
-             "the tol+1 margin and were judged, and the scene is not vacuous (tolerance < feature/200); distinct by hash "
-             "of inputs+configuration"),
-    "assumptions": ["exact __int128 orientation/winding oracle in harness/common/geom.h is correct",
-                    "inputs outside general position (filter: 3.001+M*2^-50 separation) are not explored"],
-    "floor": _q(5000, 100000),
-    "must_count": _q(["points_judged", "boundary_points_checked"], ["points_judged", "boundary_points_checked"]),
-    "jobs": [
-        {"mon": "mon_c01", "cfg": "plain", "cases": _q(40000, 1600000)},
-        {"mon": "mon_c01", "cfg": "hp", "cases": _q(20000, 800000), "seed_off": 1000003},
-        {"mon": "mon_c01", "cfg": "portable", "cases": _q(0, 400000), "seed_off": 2000003},
-    ],
-}
+for _f in sorted(glob.glob(os.path.join(os.path.dirname(__file__), "p_c*.py"))):
+    _m = importlib.import_module("vf." + os.path.basename(_f)[:-3])
+    PROPS[_m.ID] = _m.PROP
